@@ -11,6 +11,11 @@ def targeted(ctx):
     out.append(codec.Case(('setof', ('int',)), ('list', [('i', 256), ('i', 1), ('i', -1), ('i', 255), ('i', 65536)])))
     out.append(codec.Case(('octs',), ('o', b'\x5a' * 2500)))
     out.append(codec.Case(('str', 'UTF8String'), ('chars', 'é' * 700)))
+    # long strings under tags: CER cuts them into segments, which carry the universal tag of the string type
+    for T0, v0 in ((('bits',), ('bits', tuple((i * 7) % 5 == 0 and 1 or 0 for i in range(8001)))),
+                   (('octs',), ('o', bytes([7]) * 1001)), (('str', 'IA5String'), ('chars', 'x' * 1500))):
+        for wrap in (lambda t: ('imp', (128, 0, 5), t), lambda t: ('exp', (64, 0, 31), t)):
+            out.append(codec.Case(wrap(T0), v0))
     out.append(codec.Case(('seq', [('req', ('exp', (128, 0, 1), ('octs',))), ('opt', ('str', 'IA5String'))]),
                           ('rec', [('o', b'\x01' * 1001), ('chars', 'x' * 1000)])))
     out.append(codec.Case(('set', [(('def', ('i', 5)), ('int',)), ('req', ('exp', (128, 0, 0), ('bool',))), ('opt', ('imp', (64, 0, 3), ('null',)))]),
@@ -35,6 +40,11 @@ def run(ctx):
                 'agreement of the three decoders on DER, CER and BER-only (indefinite, chunked) encodings of the same value')
     cases = codec.gen_cases(ctx, ctx.n(100, 2000), depth=3, any_der=True) + targeted(ctx)
     cases += codec.leaf_boundary_cases(ctx, every=3 if ctx.tier == 'quick' else 1)
+    # SETs whose members are nested CHOICEs (untagged, or under an EXPLICIT tag of their own) with sibling tags in between
+    from harness.props import c17 as _c17
+    for T_, v_, _how in _c17.set_choice_cases(ctx, gen.Gen(ctx.rng), ctx.n(8, 150)):
+        try: cases.append(codec.Case(T_, v_))
+        except Exception: ctx.stats['set_choice_unbuildable'] += 1
     exprs, meta = [], []
     search_only = getattr(ctx, 'search_only', False)
     for c in cases:
